@@ -308,6 +308,7 @@ class Extractor:
         src, modpath, name = args[:3]
         s = self.source(src)
         a, b = (s.find_alias if alias else s.find_const)(self.scope(s, modpath), name)
+        self.meta.setdefault("declared_consts", []).append(name)
         txt = s.text[a:b]
         if not txt.startswith("pub"):
             txt = "pub " + txt
@@ -330,6 +331,17 @@ class Extractor:
         hits = {}
         contract = []
         result_name = None
+        # constants of the same file/module referenced by the function are part of its meaning (a missing const in a
+        # `match` pattern would silently become a catch-all binding): pull their definitions in verbatim
+        for ident in sorted(set(re.findall(r"\b[A-Z][A-Z0-9_]{2,}\b", mask(raw)))):
+            if ident in self.meta.get("declared_consts", []) or ident in [c[0] for c in self.meta.get("auto_consts", [])]:
+                continue
+            try:
+                ca, cb = s.find_const(self.scope(s, modpath), ident)
+            except AnchorLost:
+                continue
+            ctext = s.text[ca:cb]
+            self.meta.setdefault("auto_consts", []).append((ident, ctext if ctext.startswith("pub") else "pub " + ctext))
         contract_block = ""
         for key, val in opts:
             if key == "result":
@@ -574,6 +586,11 @@ class Extractor:
 def generate(unit_template, repo, expanded_provider=None):
     ex = Extractor(repo, expanded_provider)
     text = ex.expand(unit_template)
+    ac = ex.meta.get("auto_consts", [])
+    if ac:
+        block = "verus! {\n" + "\n".join(c[1] for c in ac) + "\n}\n"
+        text = text.replace("\nfn main() {}", "\n" + block + "fn main() {}", 1)
+        ex.meta["auto_consts"] = [c[0] for c in ac]
     return text, ex.meta
 
 
